@@ -87,9 +87,9 @@ func hNondetBool(c *Ctx, st *State, fn *ssa.Function, a []Value) (*State, Value)
 }
 
 func hNondetIntRange(c *Ctx, st *State, fn *ssa.Function, a []Value) (*State, Value) {
-	lo, hi := c.intArg(a[1]), c.intArg(a[2])
+	lo, hi := a[1].(*Term), a[2].(*Term)
 	t := c.nondetScalar(a[0], "int", 64)
-	st.pc = append(st.pc, c.tt.Bin(OpSle, c.tt.Const(64, uint64(lo)), t), c.tt.Bin(OpSle, t, c.tt.Const(64, uint64(hi))))
+	st.pc = append(st.pc, c.tt.Bin(OpSle, lo, t), c.tt.Bin(OpSle, t, hi))
 	return st, t
 }
 
